@@ -246,7 +246,7 @@ func goroutineState(dump string, id uint64) string {
 
 func isSyncWait(state string) bool {
 	switch state {
-	case "semacquire", "sync.Mutex.Lock", "sync.RWMutex.Lock", "sync.RWMutex.RLock", "sync.Cond.Wait":
+	case "semacquire", "sync.Mutex.Lock", "sync.RWMutex.Lock", "sync.RWMutex.RLock", "sync.Cond.Wait", "sync.WaitGroup.Wait":
 		return true
 	}
 	return false
